@@ -1,5 +1,95 @@
+import SamVerif.Model.Backends
 import Driver.Util
-/-! Line-protocol driver for property C04 (model side). Not implemented yet. -/
+/-! Protocol `backends` (C04): one micro-operation per line, answered by both back-end models.
+A leading `!` (the harness' "compile this line as its own program" flag) is ignored here. -/
+namespace Driver.C04
+open SamVerif.Backends Driver
+
+def opOfName (s : String) : Option Op := Op.all.find? (fun o => o.name == s)
+
+def showJs : JsVal → String
+  | .int n => s!"i:{n}"
+  | .frac _ _ => "frac"
+  | .nan => "nan"
+  | .inf neg => if neg then "-inf" else "inf"
+  | .bool b => if b then "b:true" else "b:false"
+
+def showW : Option Int → String
+  | some n => s!"i:{n}"
+  | none => "trap"
+
+def hex4 (n : Nat) : String :=
+  String.ofList [hexDigit (n / 4096 % 16), hexDigit (n / 256 % 16), hexDigit (n / 16 % 16), hexDigit (n % 16)]
+
+def showUnits (l : List Nat) : String := if l.isEmpty then "u:-" else "u:" ++ String.join (l.map hex4)
+
+/-- code points of the UTF-8 text given in hex -/
+def textOfHex (h : String) : Option (List Nat) :=
+  let bytes := bytesOfHex h
+  match String.fromUTF8? (ByteArray.mk bytes.toArray) with
+  | some s => some (s.toList.map Char.toNat)
+  | none => none
+
+/-- `kind` = "P" (JS `Error` thrown: panic) for the TypeScript runtime, "T" (engine trap) for wasm -/
+def showRes (kind : String) : VRes → String
+  | .unit => "u"
+  | .val n => s!"v{n}"
+  | .fail m => kind ++ hexOfBytes m.toUTF8.toList
+
+def parseVOp (t : String) : Option VOp :=
+  match t.splitOn ":" with
+  | ["push", v] => v.toInt?.map .push
+  | ["pop"] => some .pop
+  | ["get", i] => i.toInt?.map .get
+  | ["set", i, v] => match i.toInt?, v.toInt? with
+    | some i, some v => some (.set i v)
+    | _, _ => none
+  | ["len"] => some .len
+  | _ => none
+
+def step (_ : Unit) (line : String) : Unit × String :=
+  let line := if line.startsWith "!" then (line.drop 1).toString else line
+  ((), match words line with
+  | ["bin", o, a, b] =>
+    match opOfName o, a.toInt?, b.toInt? with
+    | some op, some a, some b => s!"{showJs (tsBin op a b)} {showW (wasmBin op a b)}"
+    | _, _, _ => "bad-op"
+  | ["str", h] =>
+    match textOfHex h with
+    | none => "bad-utf8"
+    | some raw =>
+      if lexAccepts raw then
+        let c := content raw
+        let t := match tsCook c with
+          | some u => showUnits u
+          | none => "syn"
+        s!"{t} {showUnits (wasmDecode c)}"
+      else "rej"
+  | ["i2s", n] =>
+    match n.toInt? with
+    | some n => s!"{showUnits (tsFromInt n)} {showUnits (wasmFromInt n)}"
+    | none => "bad-op"
+  | ["s2i", h] =>
+    match textOfHex h with
+    | none => "bad-utf8"
+    | some s =>
+      let t := match tsToInt s with
+        | some n => s!"i:{n}"
+        | none => "nan"
+      s!"{t} {showW (wasmToInt (s.flatMap utf8))}"
+  | "vec" :: ops =>
+    match ops.mapM parseVOp with
+    | none => "bad-op"
+    | some ops =>
+      let t := tsVecRun [] ops
+      let w := wasmVecRun WVec.empty ops
+      s!"{",".intercalate (t.map (showRes "P"))} {",".intercalate (w.map (showRes "T"))}"
+  | _ => "bad-op")
+
+def run : IO Unit := runLoop () step
+
+end Driver.C04
+
 def main (_args : List String) : IO UInt32 := do
-  IO.eprintln "drv-c04: not implemented yet"
-  return 2
+  Driver.C04.run
+  return 0
